@@ -609,15 +609,6 @@ func (o *aobj) statValue(key string) string {
 	return "NA"
 }
 
-func renderAnn(a map[string]any) []string {
-	out := make([]string, 0, len(a))
-	for k, v := range a {
-		out = append(out, fmt.Sprintf("%s=%v", k, v))
-	}
-	sort.Strings(out)
-	return out
-}
-
 func annotCompare(o *aobj) error {
 	r := o.real
 	if r == nil {
@@ -1054,7 +1045,7 @@ var annotKinds = func() []string {
 		k string
 		n int
 	}{{"new", 4}, {"copy", 6}, {"rc_cp", 5}, {"rc_in", 1}, {"sub", 5}, {"setc", 7}, {"preset", 2}, {"statson", 4}, {"plusone", 6},
-		{"merge_in", 4}, {"merge_cp", 4}, {"mutc", 10}, {"setattr", 3}, {"setcount", 1}, {"delattr", 1}, {"recycle", 5}, {"m_alias", 8}}
+		{"merge_in", 4}, {"merge_cp", 4}, {"mutc", 10}, {"setattr", 3}, {"setcount", 1}, {"delattr", 1}, {"recycle", 5}, {"m_alias", 12}}
 	var ks []string
 	for _, e := range w {
 		for i := 0; i < e.n; i++ {
@@ -1188,7 +1179,7 @@ func genAnnot(t *rapid.T, maxOps int) annotCase {
 			i := pick("i")
 			slot := ""
 			skey := rapid.SampledFrom(statKeys).Draw(t, "skey")
-			how := rapid.IntRange(0, 4).Draw(t, "produce")
+			how := rapid.IntRange(0, 6).Draw(t, "produce") % 5 // 0 (a container of any type) twice as often
 			switch how {
 			case 0:
 				cs := genContSpec(t, rapid.SampledFrom(contSlots).Draw(t, "slot"))
